@@ -5,6 +5,7 @@ CONSTANTS
   Atoms <- AtomsB
   MaxLevel = 2
   WithPairs = FALSE
+  EmitFrom = 0
   ReasonBug = FALSE
 VIEW GView
 ACTION_CONSTRAINT Emit
